@@ -190,10 +190,31 @@ type chanq struct {
 
 // newMapIter: iteration order of a Go map. Insertion order by default; with
 // Engine.MapOrder > 0 (and inside a harness that enabled it) the solver picks the order.
-func newMapIter(m *omap) iter {
+func newMapIter(fr *frame, m *omap) iter {
 	ents := m.live()
 	if theEngine != nil && theEngine.MapOrder > 0 && theEngine.mapOrderOn && len(ents) >= 2 && len(ents) <= theEngine.mapOrderMax {
-		ents = theEngine.permute(ents)
+		name := fr.fn.String()
+		if !OrderInsensitive[name] {
+			theEngine.PermutedRanges[name]++
+			ents = theEngine.permute(ents)
+		}
 	}
 	return &omapIter{ents: ents}
+}
+
+// OrderInsensitive lists functions whose range-over-map loops were audited as
+// independent of iteration order (they copy into another map, or sort afterwards).
+// Part of the claim: listed in evidence.
+var OrderInsensitive = map[string]bool{
+	"github.com/Syuparn/pangaea/object.NewCopiedEnv":       true, // copies Store into a new map
+	"(*github.com/Syuparn/pangaea/object.Env).InjectFrom":  true, // Set per distinct key
+	"(*github.com/Syuparn/pangaea/object.Env).Items":       true, // map -> map, keys sorted by PanObjInstancePtr
+	"(*github.com/Syuparn/pangaea/object.PanObj).AddPairs": true, // insert-if-absent of distinct keys
+	"github.com/Syuparn/pangaea/object.keyHashes":          true, // sorts afterwards
+	"(*github.com/Syuparn/pangaea/object.PanObj).Inspect":  true, // sortedPairsString
+	"(*github.com/Syuparn/pangaea/object.PanObj).Repr":     true,
+	"(*github.com/Syuparn/pangaea/object.PanMap).Inspect":  true, // hashable pairs sorted; non-hashable pairs are a slice
+	"(*github.com/Syuparn/pangaea/object.PanMap).Repr":     true,
+	"github.com/Syuparn/pangaea/di.toPairs":                true, // start-up, map -> map
+	"github.com/Syuparn/pangaea/di.mergePropContainers":    true, // start-up, map -> map
 }
